@@ -17,4 +17,9 @@ var prop = stats.Prop(R, "history", func(t *rapid.T) timecase.Case { return time
 
 func TestHistory(t *testing.T) { rapid.Check(t, prop) }
 
+// Several handlers, each with its own history, in separate goroutines at the same time.
+var propParallel = stats.ParallelProp(R, "parallel", func(t *rapid.T) timecase.Case { return timecase.Gen(t, false) }, timecase.Check, 4)
+
+func TestParallel(t *testing.T) { rapid.Check(t, propParallel) }
+
 func TestReplay(t *testing.T) { R.Replay(t) }
